@@ -24,7 +24,17 @@ func (s *Sim) NewParFilter(spec FilterSpec, cached bool) *ParF {
 	if cached && f.CanRegister() {
 		f.Register()
 	}
-	return &ParF{Spec: spec, F: f, Rels: rels}
+	pf := &ParF{Spec: spec, F: f, Rels: rels}
+	return pf
+}
+
+// UseForBatch calls Filter.Batch with a per-call relation target once, as a batch operation would.
+func (s *Sim) UseForBatch(p *ParF) {
+	if !p.F.CanRegister() {
+		return
+	}
+	qrels, _, _ := s.ParQuery(p, 0)
+	s.call(func() { _ = p.F.Batch(qrels) })
 }
 
 // PartitionType returns the relation type usable for per-query partitioning of the filter (-1: none).
